@@ -45,6 +45,30 @@ def design_run(prog, consts, stats, timeout):
     return r
 
 
+def liveness_run(prog, consts, stats, timeout, expect_ok=True):
+    """C14 'never hangs' at design level: under weak fairness of every goroutine (PlusCal fair processes) every call
+    returns - PROPERTY Termination. Catches what the deadlock check cannot: a livelock (e.g. the re-validation loop of
+    acquireState spinning). Run without VIEW (a view is unsound for liveness). expect_ok=False is the negative control:
+    the pinned design (FIXED = FALSE: Close does not wake a parked writer) must violate it."""
+    c = dict(consts, Record=False)
+    c.setdefault("CoverProcs", set())
+    ls = ["SPECIFICATION Spec", "CONSTANTS", "  Prog <- MCProg"] + ["  %s = %s" % (k, tla_val(v)) for k, v in c.items()]
+    ls += ["PROPERTY Termination", "CHECK_DEADLOCK FALSE"]
+    r = tlc("MCWalConc", "\n".join(ls) + "\n", extra={"MCWalConc.tla": mc_module(prog)}, timeout=timeout, heap="16g")
+    bad = "Temporal property Termination was violated" in (r.out or "") or "Temporal property Termination was violated" in str(r.error)
+    key = "liveness" if expect_ok else "liveness_control"
+    if r.error == "timeout":
+        stats[key + "_timeout"] = True
+        return
+    if expect_ok and (bad or r.error or r.violated):
+        raise Inconclusive("WalConc liveness run (repaired design) failed: %s %s\n%s" % (r.error, r.violated, r.out[-3000:]))
+    if not expect_ok and not bad:
+        raise Inconclusive("WalConc liveness negative control was not rejected (FIXED = FALSE must leave a parked writer "
+                           "waiting for ever): %s\n%s" % (r.error, r.out[-2000:]))
+    stats[key + "_states"] = stats.get(key + "_states", 0) + r.distinct
+    stats[key + "_wall"] = round(stats.get(key + "_wall", 0) + r.wall, 1)
+
+
 def gen_schedules(prog, consts, num, seed, stats):
     cfg = conc_cfg(dict(consts, Record=True), ["EmitSched"], deadlock=False, view=False)
     r = tlc("MCWalConc", cfg, extra={"MCWalConc.tla": mc_module(prog)}, timeout=300, workers=1,
@@ -219,6 +243,14 @@ def check_conc(pid, tier, seed):
                 [(["store", "delt"], dict(b, NReaders=2), dict(b, NReaders=3)), (["store", "store", "delh"], b, dict(b, NReaders=2)),
                  (["store", "delt", "store", "store"], b, dict(b, NReaders=2, SealAt=2)),
                  (["store", "store", "delt", "delh", "store"], None, dict(b, NReaders=2, ReadsEach=2))])[ti]
+    if closer:
+        lb = dict(b, WithStable=False)
+        if ti == 0:
+            liveness_run(["store"], dict(lb, NReaders=1), stats, 300)
+        else:
+            liveness_run(["store", "store"], lb, stats, 2400)
+            liveness_run(["store"], b, stats, 1800)
+            liveness_run(["store", "store"], dict(lb, FIXED=False), stats, 1200, expect_ok=False)
     scen, allpairs, nsched = [], set(), 0
     for pi, (prog, dconsts, consts) in enumerate(cfgs):
         if dconsts is not None:
